@@ -91,6 +91,18 @@ def div_probe(kind: str, a, b, inexact: bool, text: str):
     return a // b if kind == "floordiv" else a % b
 
 
+def pow_probe(a, b, text: str):
+    try:
+        r = a**b
+    except (ZeroDivisionError, OverflowError, ValueError, TypeError):
+        RECORD.append(f"power {text}: undefined operand {a!r} ** {b!r}")
+        raise
+    if isinstance(r, complex) or r != r:
+        # Python floats answer a complex number, numpy scalars nan: whatever follows is not the mathematics of a real model
+        RECORD.append(f"power {text}: undefined operand {a!r} ** {b!r}")
+    return r
+
+
 def _inexact(node: ast.AST) -> bool:
     t = ast.unparse(node)
     return any(m in t for m in _MARKERS)
@@ -123,6 +135,8 @@ class _T(ast.NodeTransformer):
 
     def visit_BinOp(self, node: ast.BinOp):
         self.generic_visit(node)
+        if isinstance(node.op, ast.Pow):
+            return ast.Call(func=ast.Name("__pow_probe__", ast.Load()), args=[node.left, node.right, ast.Constant(ast.unparse(node)[:80])], keywords=[])
         if isinstance(node.op, (ast.FloorDiv, ast.Mod)):
             kind = "floordiv" if isinstance(node.op, ast.FloorDiv) else "mod"
             return ast.Call(func=ast.Name("__div_probe__", ast.Load()), args=[ast.Constant(kind), node.left, node.right, ast.Constant(_inexact(node.left) or _inexact(node.right)), ast.Constant(ast.unparse(node)[:80])], keywords=[])
@@ -132,5 +146,5 @@ class _T(ast.NodeTransformer):
 def instrument(src: str) -> str:
     tree = _T().visit(ast.parse(src))
     ast.fix_missing_locations(tree)
-    head = "from vlib.illcond import cmp_probe as __cmp_probe__, round_probe as __round_probe__, div_probe as __div_probe__\n"
+    head = "from vlib.illcond import cmp_probe as __cmp_probe__, round_probe as __round_probe__, div_probe as __div_probe__, pow_probe as __pow_probe__\n"
     return head + ast.unparse(tree) + "\n"
